@@ -252,6 +252,9 @@ def std_stages(tier, seed, battery, closed=("split", "long"), kinds_random=None,
     st = []
     mk = model_kinds or (["alpha/string"] if q else ["alpha/string", "alpha/bytes"])
     st.append(Stage("model", "alpha/string", "lfan", size, battery))
+    # executions nobody here designed: the repository's own tests, unedited, under the call recorder; large trees
+    # (235 886 words) are judged through key-sample projections. Quick: the first 1 500 calls of every tree.
+    st.append(Stage("suite", "suite", "repository-tests", size, battery, max=(1500 if q else 0), proj=(3 if q else 6)))
     for u in closed:
         for k in mk:
             # thorough closures have up to 2^13 states x ~40 operations: replay a seeded sample of 120 000 transitions per stage
